@@ -129,7 +129,8 @@ def sample_of_set(fn, flow):
                     node = flow.cfg.node_containing(c)
                 except Exception:
                     continue
-                ds = flow.reaching(chain(a), node)
+                ds = [d for d in flow.reaching(chain(a), node)
+                      if d.mode != "mut"]      # add/remove keep the type
                 if ds and all(d.mode == "assign" and d.value is not None
                               for d in ds):
                     if all(_is_set(d.value) for d in ds):
